@@ -103,7 +103,17 @@ pub fn check_page(c: &PageCase, st: &mut Stats) -> Result<(), String> {
 
     let mut effective_set = false;
     let mut edge_probe = false;
+    // a second page of another size is used alternately on the same thread: nothing may leak between page objects
+    let (ow, oh) = (c.h % 23 + 1, c.w % 19 + 1);
+    let mut other = Page::new(PageId(0xEE), ow, oh);
     for (i, op) in c.ops.iter().enumerate() {
+        {
+            let (x, y) = ((i as u32 * 7) % ow, (i as u32 * 5) % oh);
+            other.set_pixel(x, y, i % 2 == 0);
+            if other.get_pixel(x, y) != (i % 2 == 0) {
+                return Err(format!("step {i}: a second page ({ow}x{oh}) used alternately does not read back its own pixel ({x},{y})"));
+            }
+        }
         let before = page.as_bytes().to_vec();
         match *op {
             Op::Set(x, y, v) => {
